@@ -75,17 +75,27 @@ func monC05(w *World) {
 			w.probe("c05-all-committed-by-deadline")
 		})
 	}
-	if heal == 0 {
-		w.at(0, "c05-arm", arm)
-	} else {
-		w.at(heal, "c05-arm", arm)
-	}
+	w.onHeal = append(w.onHeal, arm)
+	_ = heal
 	w.hooks.onCommit = append(w.hooks.onCommit, func(nd *Node, b *hotstuff.Block) {
 		if armed && w.now() <= deadline {
 			for _, m := range members {
 				if m == nd {
 					commitsAfter[nd]++
 					lastCommit[nd] = w.now()
+				}
+			}
+			if !faultFree {
+				// every member has committed again (twice over): nothing more to learn from this run
+				all := true
+				for _, m := range members {
+					if commitsAfter[m] < 2 {
+						all = false
+					}
+				}
+				if all {
+					w.probe("c05-all-committed-by-deadline")
+					w.stop = true
 				}
 			}
 		}
